@@ -68,6 +68,7 @@ var GL []string
 var GF func(string) string
 var GI I = C{}
 var GC = make(chan string, 4)
+var GP = &G1
 '''
 
 
@@ -192,7 +193,7 @@ class FuncGen:
     # ---- statements
     def stmt(self, depth=0):
         r = self.rng
-        kinds = ["decl", "decl", "assign", "sink", "sink", "gwrite", "gwrite", "fwrite", "selfcopy", "call", "closure0", "closure1",
+        kinds = ["decl", "decl", "assign", "sink", "sink", "fanin", "gwrite", "gwrite", "fwrite", "selfcopy", "gptr", "call", "closure0", "closure1",
                  "iface", "tuple", "slice", "map", "ptr", "chan", "gfunc", "sdecl", "awrite", "mwrite", "lwrite",
                  "ifacecall", "sanit", "triple"]
         if depth < 2:
@@ -234,6 +235,22 @@ class FuncGen:
             if t.startswith("&") or t.endswith(")"):
                 t = "GS"
             self.emit("%s.%s = %s" % (t, r.pick(["f", "g"]), self.s()))
+        elif k == "fanin":
+            # several distinct source call sites reach one sink call
+            n = 3 + r.below(3)
+            parts = [r.pick(["source1()", "source2()", "source3().f"]) for _ in range(n)]
+            self.emit("sink1(%s)" % " + ".join(parts))
+        elif k == "gptr":
+            # one instruction that mentions two globals (a pointer-typed global and the global it points to)
+            c = r.below(4)
+            if c == 0:
+                self.emit("GP = &%s" % r.pick(["G0", "G1"]))
+            elif c == 1:
+                self.emit("*GP = %s" % self.s())
+            elif c == 2:
+                self.emit("sink1(*GP)")
+            else:
+                self.emit("%s = %s; GP = &%s" % ("G0", self.s(), "G0"))
         elif k == "selfcopy" and self.structs:
             # data moved between two access paths of one pointer (a self edge of the parameter node when the
             # pointer is a parameter and the analysis is field sensitive)
